@@ -37,7 +37,9 @@ Inductive winstr :=
                                  deferred before a conditional acquire) *)
 | WEnd                        (* the operation returns to its caller *)
 | WCloseT                     (* Conn.Close: close the transport *)
-| WBad.
+| WBad
+| WRecv.                      (* a frame from the peer reaches the reading goroutine -- unless the connection has been
+                                 closed: then the reader has ended and nobody handles the frame *)
 
 (* skeleton events *)
 Inductive sev := SAcq (tmo : bool) | STest | SWrite (fatal : bool) | SLatch | SRel | SRelEarly | SNop | SBad.
@@ -112,7 +114,7 @@ Definition op_code (wsk csk : list sev) (o : wop) : list winstr :=
   | OCtl tmo f => frame_code csk tmo f ++ [WEnd]
   | OMsg fs => WPrep :: flat_map (frame_code wsk false) fs ++ [WEnd]
   | OCloseConn => [WCloseT; WEnd]
-  | OPing f => frame_code csk false f ++ [WEnd]   (* the handler's deadline (writeWait = 1 s) is taken as never expiring *)
+  | OPing f => WRecv :: frame_code csk false f ++ [WEnd]   (* the handler's deadline (writeWait = 1 s) is taken as never expiring *)
   end.
 Definition prog_code (wsk csk : list sev) (ops : list wop) : list winstr :=
   flat_map (op_code wsk csk) ops.
@@ -236,6 +238,10 @@ Definition wstep (s : wstate) (i : nat) : wstate :=
           {| wlk := wlk s; werr := werr s; wtc := true; wths := adv (wfail t);
              wwire := wwire s; wclosed := wclosed s; wopen := wopen s; wres := wres s; wmsg := wmsg s; wcut := wcut s |}
       | WBad => skip
+      | WRecv =>
+          {| wlk := wlk s; werr := werr s; wtc := wtc s;
+             wths := adv (match wfail t with Some e => Some e | None => if wtc s then Some e_transport else None end);
+             wwire := wwire s; wclosed := wclosed s; wopen := wopen s; wres := wres s; wmsg := wmsg s; wcut := wcut s |}
       end
     end
   end.
